@@ -61,6 +61,24 @@ def fns_of_group(crate, group):
     return out
 
 
+# struct invariants (established by the constructors, preserved by every writer: rules C03.R1 / C05.G / C11.BX / C08.O check that) used as
+# hypotheses when two conditions are compared: `cursor != end` and `cursor < end` are the same test under cursor <= end
+INVARIANTS = [
+    (r"^de::flavors::Slice<", [({"self.end": 1, "self.cursor": -1}, 0)]),
+    (r"^ser::flavors::Slice<", [({"self.end": 1, "self.cursor": -1}, 0), ({"self.cursor": 1, "self.start": -1}, 0)]),
+    (r"^de::flavors::io::", [({"self.buff.end": 1, "self.buff.cursor": -1}, 0), ({"self.end": 1, "self.cursor": -1}, 0)]),
+    (r"^accumulator::CobsAccumulator<", [({"const<N>": 1, "self.idx": -1}, 0)]),
+]
+
+
+def invariants_for(f):
+    out = []
+    for pat, hs in INVARIANTS:
+        if re.match(pat, f.impl_self or ""):
+            out += hs
+    return out
+
+
 def check_group2(run, rule, F, crate, group, expect, only=None, what=None):
     """every specified function of the group (public API and trait methods; private helpers are inlined into them) must be equivalent
     to its specified semantic summary; a specified function that disappeared fails closed"""
@@ -75,7 +93,7 @@ def check_group2(run, rule, F, crate, group, expect, only=None, what=None):
         if f is None:
             run.bad(rule, key, "specified function not found in the analysed crate (public API or trait method renamed or removed?)")
             continue
-        summ2.check(run, rule, f, want, F, what=what, renames=ren)
+        summ2.check(run, rule, f, want, F, what=what, renames=ren, hyps=invariants_for(f))
         n += 1
     for key, f in sorted(fns.items()):
         if only and not only(key):
